@@ -30,14 +30,15 @@ pub proof fn lemma_tree_fn_leaf<const K: usize>(a: AArena<K>, h: Map<usize, nat>
     ensures tree_fn(a, h, idx, x) == Some(a[idx].value.aff.ap(x))
 {}
 
-// textbook scalar functions
-pub open spec fn relu(t: real) -> real { if t > 0real { t } else { 0real } }
+//@include prelude/textbook_spec.rs
 
 //@fn src/distill/schema.rs | - | partial_ReLU
 //@spec
     requires row < dim
     ensures
         r.tree.wf(), r.tree.root == Some(0usize), r.in_dim == dim, aff_shape_ok(r.a(), dim),
+        // every terminal maps into the same space
+        forall|i: usize| r.a().dom().contains(i) && #[trigger] r.a()[i].isleaf ==> r.a()[i].value.aff.mat.nrows() == dim,
         // changes exactly component `row` to max(0, x_row), for every input (breakpoint x_row == 0 included)
         forall|h: Map<usize, nat>, x: V| ranked_down(r.a(), h) && x.len() == dim ==>
             #[trigger] tree_fn(r.a(), h, 0, x) == Some(x.update(row as int, relu(x[row as int]))),
@@ -62,12 +63,6 @@ pub open spec fn relu(t: real) -> real { if t > 0real { t } else { 0real } }
         }
 //@end
 
-pub open spec fn finite(a: f64) -> bool { !a.nan() && !a.inf() }
-pub open spec fn leaky_relu(t: real, alpha: real) -> real { if t > 0real { t } else { alpha * t } }
-pub open spec fn threshold_fn(t: real, th: real, v: real) -> real { if t > th { t } else { v } }
-pub open spec fn hard_tanh(t: real, lo: real, hi: real) -> real { if t > hi { hi } else if t < lo { lo } else { t } }
-pub open spec fn hard_shrink(t: real, lam: real) -> real { if t > lam || t < -lam { t } else { 0real } }
-pub open spec fn hard_sigmoid(t: real) -> real { if t <= 0real - 3real { 0real } else if t >= 3real { 1real } else { t / 6real + 1real / 2real } }
 
 // dot product with a row that is zero except for coefficient s at position p
 pub proof fn lemma_unit_row(rw: V, x: V, dim: int, p: int, s: real)
@@ -92,6 +87,8 @@ pub proof fn lemma_scaled_identity(mt: M, b: V, x: V, dim: int, p: int, s: real,
     requires row < dim, finite(alpha)
     ensures
         r.tree.wf(), r.tree.root == Some(0usize), r.in_dim == dim, aff_shape_ok(r.a(), dim),
+        // every terminal maps into the same space
+        forall|i: usize| r.a().dom().contains(i) && #[trigger] r.a()[i].isleaf ==> r.a()[i].value.aff.mat.nrows() == dim,
         forall|h: Map<usize, nat>, x: V| ranked_down(r.a(), h) && x.len() == dim ==>
             #[trigger] tree_fn(r.a(), h, 0, x) == Some(x.update(row as int, leaky_relu(x[row as int], alpha.rv()))),
 //@hint end
@@ -121,6 +118,8 @@ pub proof fn lemma_scaled_identity(mt: M, b: V, x: V, dim: int, p: int, s: real,
     requires row < dim, finite(threshold), finite(value)
     ensures
         r.tree.wf(), r.tree.root == Some(0usize), r.in_dim == dim, aff_shape_ok(r.a(), dim),
+        // every terminal maps into the same space
+        forall|i: usize| r.a().dom().contains(i) && #[trigger] r.a()[i].isleaf ==> r.a()[i].value.aff.mat.nrows() == dim,
         forall|h: Map<usize, nat>, x: V| ranked_down(r.a(), h) && x.len() == dim ==>
             #[trigger] tree_fn(r.a(), h, 0, x) == Some(x.update(row as int, threshold_fn(x[row as int], threshold.rv(), value.rv()))),
 //@hint end
@@ -153,6 +152,8 @@ pub proof fn lemma_scaled_identity(mt: M, b: V, x: V, dim: int, p: int, s: real,
     requires row < dim, finite(min_val), finite(max_val), min_val.rv() <= max_val.rv()
     ensures
         r.tree.wf(), r.tree.root == Some(0usize), r.in_dim == dim, aff_shape_ok(r.a(), dim),
+        // every terminal maps into the same space
+        forall|i: usize| r.a().dom().contains(i) && #[trigger] r.a()[i].isleaf ==> r.a()[i].value.aff.mat.nrows() == dim,
         forall|h: Map<usize, nat>, x: V| ranked_down(r.a(), h) && x.len() == dim ==>
             #[trigger] tree_fn(r.a(), h, 0, x) == Some(x.update(row as int, hard_tanh(x[row as int], min_val.rv(), max_val.rv()))),
 //@hint end
@@ -189,6 +190,8 @@ pub proof fn lemma_scaled_identity(mt: M, b: V, x: V, dim: int, p: int, s: real,
     requires row < dim, finite(lambda)
     ensures
         r.tree.wf(), r.tree.root == Some(0usize), r.in_dim == dim, aff_shape_ok(r.a(), dim),
+        // every terminal maps into the same space
+        forall|i: usize| r.a().dom().contains(i) && #[trigger] r.a()[i].isleaf ==> r.a()[i].value.aff.mat.nrows() == dim,
         // x if |x| > lambda else 0, boundary points |x| == lambda included
         forall|h: Map<usize, nat>, x: V| ranked_down(r.a(), h) && x.len() == dim ==>
             #[trigger] tree_fn(r.a(), h, 0, x) == Some(x.update(row as int, hard_shrink(x[row as int], lambda.rv()))),
@@ -226,6 +229,8 @@ pub proof fn lemma_scaled_identity(mt: M, b: V, x: V, dim: int, p: int, s: real,
     requires row < dim
     ensures
         r.tree.wf(), r.tree.root == Some(0usize), r.in_dim == dim, aff_shape_ok(r.a(), dim),
+        // every terminal maps into the same space
+        forall|i: usize| r.a().dom().contains(i) && #[trigger] r.a()[i].isleaf ==> r.a()[i].value.aff.mat.nrows() == dim,
         forall|h: Map<usize, nat>, x: V| ranked_down(r.a(), h) && x.len() == dim ==>
             #[trigger] tree_fn(r.a(), h, 0, x) == Some(x.update(row as int, hard_sigmoid(x[row as int]))),
 //@hint end
